@@ -48,12 +48,13 @@ def main():
     ap.add_argument("--seed", type=int, default=1)
     ap.add_argument("--tier", default="quick")
     ap.add_argument("--no-store", action="store_true")
+    ap.add_argument("--id-suffix", default="")
     a = ap.parse_args()
     prop = os.path.basename(os.path.abspath(a.outdir))
     patch = os.path.join(a.outdir, "patch%s.diff" % a.n)
     demo = os.path.join(a.outdir, "demo%s.cpp" % a.n)
     notes = os.path.join(a.outdir, "notes%s.txt" % a.n)
-    sid = "%s-%s" % (prop, a.n)
+    sid = "%s-%s%s" % (prop, a.n, a.id_suffix)
     meta = {"id": sid, "breaks_property": prop, "source": "independent sub-agent given only the property text and a scratch worktree",
             "notes_from_author": open(notes).read() if os.path.exists(notes) else ""}
     d = sweep.make_worktree(patch=patch)
